@@ -3035,7 +3035,14 @@ def decode_ssh_public_key(data: bytes) -> SSHKey:
             key_params = handler.decode_ssh_public(packet)
             packet.check_end()
 
-            key = handler.make_public(key_params)
+            try:
+                key = handler.make_public(key_params)
+            except KeyImportError:
+                raise
+            except (ValueError, OverflowError):
+                # Well-formed encoding of impossible key parameters
+                raise KeyImportError('Invalid public key') from None
+
             key.algorithm = alg
             return key
         else:
@@ -3059,7 +3066,7 @@ def decode_ssh_certificate(data: bytes,
         else:
             raise KeyImportError('Unknown certificate algorithm: ' +
                                  alg.decode('ascii', errors='replace'))
-    except (PacketDecodeError, ValueError):
+    except (PacketDecodeError, ValueError, OverflowError):
         raise KeyImportError('Invalid OpenSSH certificate') from None
 
 
